@@ -31,7 +31,7 @@ RULE = ("seeded distributions (1-5 keys over 1-3 topologies, positive weights in
         "dispatching entry point; draw schedules uniform / extreme floats (first/last key) / min,max,sticky "
         "vertex choice / mix; aborts mid-sampling then reuse; 40% of the multi-sample histories edit the loader's distribution "
         "IN PLACE between samples (all keys replaced / re-weighted / a heavy key added, and / or one entry of the loader's live motif-size list changed) and the next sample is judged against the "
-        "edited distribution; 15% pass N and / or the key components as numpy int64; non-trivial = the sample needed at least one "
+        "edited distribution; 12% of the histories use the Empirical loader and RE-CREATE it from another sequence between samples; 15% pass N and / or the key components as numpy int64; non-trivial = the sample needed at least one "
         "handshake patch or had N>=2; distinct = distinct execution digests.  Weighted-draw law: size-1 "
         "configurations (no patching) AND N=1 configurations that need the patch but whose drawn key can be read back from the "
         "output, key frequencies vs weights under the rigorous KL bound")
